@@ -38,6 +38,15 @@ def classify(ev):
     return 'copy-is-not-one-snapshot-state'
 
 
+if c.replay and 'trace' not in json.load(open(c.replay)) and 'behaviour' not in json.load(open(c.replay)):
+    c.replay = None   # a race found by the concurrent segment leg: re-running the whole check is the replay
+if c.replay and 'behaviour' in json.load(open(c.replay)):
+    obj = json.load(open(c.replay))
+    res = c.run_harness_parallel(stor, ['-mode', 'segapi'], [obj['behaviour']], name='c19r', procs=1)
+    for v in res['violations']:
+        c.report('segment:' + v['signature'], v['detail'], {'behaviour': obj['behaviour'], 'harness': 'stor/segapi'})
+    c.cov.update(states=1, transitions=1, traces_validated_against_impl=0, samples=[obj['behaviour'][-1]])
+    c.finish()
 if c.replay:
     obj = json.load(open(c.replay))
     ok, k, r = validate(obj['trace'], 'c19r')
